@@ -511,4 +511,66 @@ Proof.
   - destruct (insert_child_core _ _ _ _ _ _ C5 Hpar5 Hun5 Ec) as (_ & [=] & _).
 Qed.
 
+(* ---------- move_element_here / move_element_here_at ---------- *)
+Definition move_post (h mv : id) (w : world) (r : out id) (w' : world) : Prop :=
+  Core w' /\
+  (NoOrphan w -> OriginsClean w ->
+   NoOrphan w' \/ (exists e, r = ER e /\ parent_in w' mv = PElem h /\ parent_in w mv <> PElem h)).
+
+Lemma move_post_refl h mv w r : Core w -> move_post h mv w r w.
+Proof. intros C. split; auto. Qed.
+
+Lemma move_local_post h mv pos m v w r w' mn p :
+  move_element_local T check_fn h mv pos m v w = Val (r, w') -> Core w -> h <> mv ->
+  w_nodes w mv = Some mn -> n_parent mn = PElem p -> p <> h -> move_post h mv w r w'.
+Proof.
+  intros H C Hne Hmn Hp Hph. destruct (move_local_spec _ _ _ _ _ _ _ _ H C Hne) as (C' & HO). split; auto.
+  intros O Hc. destruct (HO O Hc) as [?|(e & -> & Hpar)]; auto. right. exists e. repeat split; auto.
+  unfold parent_in. rewrite Hmn, Hp. congruence.
+Qed.
+
+Lemma move_full_post h mv pos m m_src v w r w' :
+  move_element_full T tab_en check_fn h mv pos m m_src v w = Val (r, w') -> Core w -> h <> mv ->
+  model_of mv w = Val (OK m_src, w) -> model_of h w = Val (OK m, w) -> m <> m_src -> move_post h mv w r w'.
+Proof.
+  intros H C Hne Hms Hm Hmm.
+  apply model_of_top in Hms as (_ & t1 & Ht1 & Hr1). apply model_of_top in Hm as (_ & t2 & Ht2 & Hr2).
+  destruct t1 as [|m1|]; try discriminate. injection Hr1 as <-.
+  destruct t2 as [|m2|]; try discriminate. injection Hr2 as <-.
+  assert (Hna : ~ AncS w mv h).
+  { intros Ha. pose proof (top_ancs _ _ _ _ Ha Ht2) as Ht. pose proof (top_fun _ _ _ Ht1 _ Ht). congruence. }
+  destruct (move_full_spec _ _ _ _ _ _ _ _ _ H C Hne Hna) as (C' & HO). split; auto.
+  intros O _. destruct (HO O) as [?|(e & -> & Hpar)]; auto. right. exists e. repeat split; auto.
+  intros Hp. unfold parent_in in Hp. destruct (w_nodes w mv) as [n|] eqn:Hn; [|discriminate].
+  assert (Ha : AncS w h mv) by (eapply A_up; [exists n; eauto | constructor]).
+  pose proof (top_ancs _ _ _ _ Ha Ht1) as Ht. pose proof (top_fun _ _ _ Ht2 _ Ht). congruence.
+Qed.
+
+Lemma e_move_spec h mv w r w' :
+  e_move_element_here T tab_en check_fn LATEST h mv w = Val (r, w') -> Core w -> move_post h mv w r w'.
+Proof.
+  intros H C. unfold e_move_element_here in H. pose proof (move_post_refl h mv w r C) as F.
+  destruct (h =? mv) eqn:Ehm; [winv H; apply move_post_refl; auto|]. apply N.eqb_neq in Ehm.
+  wrun_ro H ltac:(first [exact F | apply move_post_refl; auto]).
+  - match goal with Hq : (?p =? h) = false |- _ => apply N.eqb_neq in Hq end.
+    match goal with Hq : parent_of _ w = Val (OK (Some _), w) |- _ => apply parent_of_some in Hq end.
+    eapply move_local_post; eauto.
+  - match goal with Hq : (?a =? ?b) = false |- _ => apply N.eqb_neq in Hq end.
+    eapply move_full_post; eauto.
+Qed.
+
+Lemma e_move_at_spec h mv pos w r w' :
+  e_move_element_here_at T tab_en check_fn LATEST h mv pos w = Val (r, w') -> Core w -> move_post h mv w r w'.
+Proof.
+  intros H C. unfold e_move_element_here_at in H. pose proof (move_post_refl h mv w r C) as F.
+  destruct (h =? mv) eqn:Ehm; [winv H; apply move_post_refl; auto|]. apply N.eqb_neq in Ehm.
+  wrun_ro H ltac:(first [exact F | apply move_post_refl; auto]).
+  - destruct (Pres_move_position _ _ _ _ _ _ H C) as (C' & O'). split; auto.
+  - match goal with Hq : (?p =? h) = false |- _ => apply N.eqb_neq in Hq end.
+    match goal with Hq : parent_of _ w = Val (OK (Some _), w) |- _ => apply parent_of_some in Hq end.
+    eapply move_local_post; eauto.
+  - match goal with Hq : (?a =? ?b) = false |- _ => apply N.eqb_neq in Hq end.
+    eapply move_full_post; eauto.
+Qed.
+
 End Move.
